@@ -382,6 +382,7 @@ class Specs(object):
                 if mb:
                     cur.bounded = int(mb.group(1))
                 self.lemmas[cur.name] = cur
+                cur.pkg = pkg
                 curloop = None
             elif kw == 'spec':
                 mm = re.match(r'func\s+(\w+)\s*\((.*?)\)\s*([\w.\[\]*]+)\s*(.*)$', rest)
@@ -446,7 +447,10 @@ class Specs(object):
                     raise SpecError('%s: writes outside loop' % src)
                 curloop.writes = (curloop.writes or []) + ([] if rest == 'nothing' else split_top(rest))
             elif kw == 'use':
-                (curloop.asserts if curloop is not None else cur.uses).append(Clause('use', rest, props, src))
+                if isinstance(cur, Lemma):
+                    cur.uses.append(Clause('use', rest, props, src))
+                else:
+                    (curloop.asserts if curloop is not None else cur.uses).append(Clause('use', rest, props, src))
             elif kw == 'assert':
                 # assert @L<anchor> expr  : anchored by source text match, see exec
                 (curloop.asserts if curloop is not None else cur.asserts).append(Clause('assert', rest, props, src))
